@@ -296,6 +296,10 @@ func init() {
 				close(lc.block)
 			}
 		},
+		Conform: func() []explore.Params {
+			return []explore.Params{{"proto": "netrpc", "beh": "exit0", "pat": "one"}, {"proto": "grpc", "beh": "exit0", "pat": "two"}, {"proto": "grpcmux", "beh": "exit1000", "pat": "one"},
+				{"proto": "netrpc", "beh": "ignore", "pat": "one"}, {"proto": "grpc", "beh": "exit0", "pat": "conc2"}}
+		},
 		Instances: func(tier string) []explore.Params {
 			var out []explore.Params
 			behs := []string{"exit0", "exit1000", "exit1900", "ignore", "frozen", "crashed", "nohandshake", "busy", "busy-ignore"}
